@@ -28,6 +28,7 @@ type shutSpec struct {
 	// ("readerrA"): whatever Shutdown on A returns then, nil must still mean "delivered".
 	Interrupted    string
 	InterruptAfter time.Duration
+	SuspendTimers  bool // timer expiries may be postponed past the next delivery (deviation)
 	// KillShutdown: the first n packets from A carrying SHUTDOWN are lost (a loss burst on the
 	// shutdown chunk itself: it is retransmitted until it gets through)
 	KillShutdown int
@@ -139,6 +140,9 @@ func shutScenario(spec *shutSpec) *Scenario {
 			rB := reader(1, sbIn)
 			rA := reader(0, saIn)
 			m.W.faultsOn = true
+			if spec.SuspendTimers {
+				m.S.SuspendTimers = true
+			}
 			var want [2][]string
 			for i, sz := range spec.Sizes {
 				d := payload(1, i, sz)
@@ -302,6 +306,14 @@ func propC08(j *Job) {
 						j.Explore(fmt.Sprintf("S/%s/m%d/x%d/bdata%v/late%v", mode.Name, len(sizes), crossed, bdata, late), shutScenario(spec), Budget{K: k}, nil)
 						if j.capped() {
 							return
+						}
+						if j.Thorough() && !late && si == 1 {
+							ss := *spec
+							ss.SuspendTimers = true
+							j.Explore(fmt.Sprintf("S/%s/m%d/x%d/bdata%v/suspend", mode.Name, len(sizes), crossed, bdata), shutScenario(&ss), Budget{K: 1, D: 1}, nil)
+							if j.capped() {
+								return
+							}
 						}
 						if !bdata && !late && crossed == 0 && si == 1 {
 							ks := *spec
